@@ -417,7 +417,21 @@ def helpers(ctx, world):
     L1 = None
     if V is not None and V.op == "loop" and V.get("it") is not None:
         it = V.it
-        if is_call_to(it, "builtins.enumerate") and len(it.args) == 1 and m_shape(it.args[0]):
+        flt = it.args[0] if (it.op == "call" and it.fn.op == "ref" and it.fn.ref.qual in ("builtins.list", "builtins.tuple") and len(it.args) == 1) else it
+        if flt.op == "comp" and flt.get("kind") != "DictComp" and is_call_to(flt.src, "builtins.enumerate") and len(flt.src.args) == 1 and m_shape(flt.src.args[0]):
+            # unit_axes = [axis for axis, size in enumerate(target_shape) if size == 1]; for axis in unit_axes: x = sum(x, axis, keepdims=True)
+            L1 = V.init
+            src = flt.src
+            conds_ok = len(flt.conds) == 1 and atom(flt.conds[0])[1] and (lambda a: a.op == "cmp" and a.opname == "Eq" and ((comp(src, 1)(a.l) and a.r.op == "const" and a.r.value == 1) or (comp(src, 1)(a.r) and a.l.op == "const" and a.l.value == 1)))(atom(flt.conds[0])[0])
+            lf = V.next
+            elem_ax = lambda t: t.op == "iterelem" and t.src is it
+            body_ok = comp(src, 0)(flt.elt) and np_call(lf, "sum") and len(lf.args) >= 1 and me(V)(lf.args[0]) and arg(lf, 1, "axis") is not None and elem_ax(arg(lf, 1, "axis")) and is_true(lf.kw.get("keepdims") if "keepdims" in lf.kw else (lf.args[3] if len(lf.args) > 3 else None))
+            ok2 = bool(conds_ok and body_ok)
+            if not conds_ok:
+                why2 = "the size-1 axes are not selected by just `size == 1` on the TARGET's shape"
+            elif not body_ok:
+                why2 = "the size-1 reduction is not `x = sum(x, axis=axis, keepdims=True)`"
+        elif is_call_to(it, "builtins.enumerate") and len(it.args) == 1 and m_shape(it.args[0]):
             L1 = V.init
             is_size1 = lambda a: a.op == "cmp" and a.opname == "Eq" and ((comp(it, 1)(a.l) and a.r.op == "const" and a.r.value == 1) or (comp(it, 1)(a.r) and a.l.op == "const" and a.l.value == 1))
             ok2 = True
